@@ -29,7 +29,7 @@ ASSUMPTIONS = [
     'rs2py transpilation validated against the rustc-built checker in C05 of the same tree; every counterexample is rebuilt as a three-file input and run on the real binary',
     'app_ctx_holes empty; opcodes the checker does not implement (Frame, KnasterTarski, Propagation*, PreFixpoint, Singleton) panic and are out of scope',
 ]
-OUTSIDE = 'premises above the node bounds, carriers above 3, instantiation values above the value bounds'
+OUTSIDE = 'premises above the node bounds, carriers above 3, instantiation values above the value bounds; L-schema (rule/instantiation commutation) only for premises with one constraint annotation per metavariable id -- for differently annotated occurrences only L-inst (admissibility and result of Instantiate) is established'
 EXPLANATION = (
     'one instruction of the real checker is executed symbolically from a symbolic valid state (premise shapes by forking, all ids and the operand symbolic); '
     'on every accepting path z3 is asked for a finite model and valuation in which the premises are valid and the conclusion is not '
